@@ -134,8 +134,8 @@ def insertSorted (x : Nat) : List Nat → List Nat
 def asCmd (j : Json) : R (Cmd Expr) := do
   if let .ok v := j.getObjVal? "measure" then
     let ms ← asNatList v
-    let vs ← (← getArr j "vals").mapM asRat
-    return .measure ms (vs.map .num)
+    let vs ← (← getArr j "vals").mapM asVal
+    return .measure ms vs
   if let .ok v := j.getObjVal? "prepare" then return .prepare (← v.getNat?)
   if let .ok v := j.getObjVal? "use" then return .use (← asExpr v)
   if let .ok v := j.getObjVal? "useArr" then return .useArr (← (← v.getArr?).toList.mapM asExpr)
@@ -223,13 +223,13 @@ def handler (op : String) (j : Json) : Option (R Json) :=
     pure <| exprJson (mergeP0 a b (getBoolD j "da" false) (getBoolD j "db" false))
   | "param.engine" => some do
     let fr ← tabD j "free" asStrTab []
-    let own0 ← tabD j "own0" asNatTab []
+    let own0 ← tabD j "own0" asNatVals []
     let segs0 ← (← getArr j "segs").mapM fun s => do
       let cs ← (← s.getArr?).toList.mapM asCmd
       pure ((Regs.empty : Regs Expr), cs)
     -- `own0`: what the RegRefs of the first Program hold before the run
     let segs := match segs0 with
-      | (_, cs) :: rest => ((fun m => (lookupN own0 m).map Expr.num), cs) :: rest
+      | (_, cs) :: rest => ((fun m => (own0.find? (·.1 == m)).map (·.2)), cs) :: rest
       | [] => []
     let o := runSegs (fun n => (lookupS fr n).map Expr.num) {} segs
     let last := fun (m : Nat) => match lastOutcome m (segs.flatMap (·.2)) with
